@@ -15,9 +15,10 @@ LEDGER = [
 ]
 
 
-SETUP_CMD = "true"
-HOOKS = {"guard": "verif-hooks", "enable": "none needed by the Verus checks (they read source); Kani harnesses build /repo with --features verif-hooks once the hook commit exists",
-         "baseline_off_cmd": "cd /repo && cargo test --workspace --no-fail-fast --offline", "source_commits": [], "add_only": True}
+SETUP_CMD = "sh tools/setup.sh"
+HOOKS = {"guard": "verif-hooks (cargo feature of griddle, off by default)",
+         "enable": "the Kani harness crate /verif/kani depends on griddle with features = [\"verif-hooks\"] (HashMap/HashSet::verif_state()); the Verus checks read source and need no hook",
+         "baseline_off_cmd": "cd /repo && cargo test --workspace --no-fail-fast --offline", "source_commits": ["9602676"], "add_only": True}
 NOTES = ("All checks share one pipeline: extract real functions from /repo's working tree, splice contracts, Verus twice (debug-assertions on/off) "
          "plus a vacuity-probe run. exit 2 = UNDECIDED (tool limit / lost anchor), never an alarm. Three defects were repaired with fix: commits "
          "(e250819, d078205, c07d4e4); one finding (zero-sized elements) is recorded in known_findings.txt.")
